@@ -186,7 +186,40 @@ func (e *Exec) Line(line string) string {
 		}
 		return e.final()
 	}
+	if x, ok := e.T.(ExtraLines); ok {
+		if out, handled := x.ExtraLine(t); handled {
+			return out
+		}
+	}
 	return "bad-op"
+}
+
+// ExtraLines is implemented by targets with protocol lines of their own
+// (C01: `warp <k>`), executed by the controller between steps.
+type ExtraLines interface {
+	ExtraLine(toks []string) (out string, handled bool)
+}
+
+// Mark is a protocol line other than step/drain/final, with its place in the trace.
+type Mark struct {
+	Line      int
+	AfterStep int // number of steps performed before it
+	Toks      []string
+	Out       string
+}
+
+// Marks lists the target-specific lines of a case with their positions.
+func Marks(lines, out []string) []Mark {
+	var ms []Mark
+	for i := 1; i < len(lines) && i < len(out); i++ {
+		t := strings.Fields(lines[i])
+		if len(t) == 0 || t[0] == "step" || t[0] == "drain" || t[0] == "final" {
+			continue
+		}
+		steps, _, _ := ParseTrace(lines[:i], out[:i])
+		ms = append(ms, Mark{Line: i, AfterStep: len(steps), Toks: t, Out: out[i]})
+	}
+	return ms
 }
 
 // ParseProgs splits `T a b T c` into [[a b] [c]].
